@@ -12,16 +12,48 @@ seed="${VERIF_SEED:-0}"; [ "$seed" = "0" ] && seed=1
 log="$ROOT/.cache/fuzz-$id.log"
 ( cd "$ROOT/fuzz" && cargo +nightly fuzz build --fuzz-dir "$ROOT/fuzz" prop >"$ROOT/.cache/fuzz-build.log" 2>&1 ) || { tail -20 "$ROOT/.cache/fuzz-build.log"; echo "INCONCLUSIVE property=$id fuzz target does not build (exit 2)"; exit 2; }
 corpus="$ROOT/.cache/fuzz-corpus-$id"; rm -rf "$corpus"; mkdir -p "$corpus" "$ROOT/.cache/fuzz-artifacts"
+# seed corpus: golden inputs from the repository's tests / RFC examples in the wire format of this
+# property, plus random files (the two kinds of start differ a lot in what a campaign reaches)
+"$ROOT/.cache/target/release/iref-verif" fuzz-seeds "$id" "$corpus" 2>/dev/null
 python3 - "$corpus" "$seed" <<'PY'
 import sys, random
 d, seed = sys.argv[1], int(sys.argv[2])
 r = random.Random(seed)
-for i in range(96):
-    n = r.choice([64, 256, 1024, 2048, 4096])
-    open(f"{d}/seed{i:03d}", "wb").write(bytes(r.getrandbits(8) for _ in range(n)))
+alphabet = b":/?#[]@%.0123456789abcdefABCDEFxyz-_~!$&'()*+,;=\x00\x00\x01\xc3\xa9\xe8\xaa\x9e"
+for i in range(48):
+    n = r.choice([8, 24, 64, 200, 600])
+    open(f"{d}/rnd{i:03d}", "wb").write(bytes(r.choice(alphabet) for _ in range(n)))
 PY
+cat > "$ROOT/.cache/fuzz.dict" <<'DICT'
+"://"
+"//"
+"/./"
+"/../"
+"./"
+"../"
+"%2E"
+"%2e%2E"
+"%2F"
+"%C3%A9"
+"%FF"
+"%C0%AF"
+"[::1]"
+"[v1.a]"
+"[1:2:3:4:5:6:7:8]"
+"1.2.3.4"
+"@"
+":80"
+"?"
+"#"
+"data:"
+";base64,"
+"\x00"
+"\x01"
+"http:"
+"a:b"
+DICT
 bin="$CARGO_TARGET_DIR/x86_64-unknown-linux-gnu/release/prop"
-VERIF_FUZZ_PROP="$id" "$bin" "$corpus" -artifact_prefix="$ROOT/.cache/fuzz-artifacts/$id-" -max_total_time="$secs" -seed="$seed" -len_control=0 -max_len=4096 -timeout=60 -rss_limit_mb=4096 -jobs=8 -workers=8 >"$log" 2>&1
+VERIF_FUZZ_PROP="$id" "$bin" "$corpus" -artifact_prefix="$ROOT/.cache/fuzz-artifacts/$id-" -max_total_time="$secs" -seed="$seed" -len_control=0 -max_len=2048 -dict="$ROOT/.cache/fuzz.dict" -timeout=60 -rss_limit_mb=4096 -jobs=8 -workers=8 >"$log" 2>&1
 rc=$?
 execs=$(grep -ho "stat::number_of_executed_units: [0-9]*" "$ROOT"/fuzz/fuzz-*.log "$log" 2>/dev/null | awk '{s+=$2} END {print s+0}')
 # per-job logs are written to the cwd by libFuzzer (-jobs); collect them
@@ -40,7 +72,7 @@ if execs == 0:
     m = re.findall(r"#(\d+)\s+DONE", txt)
     execs = sum(int(x) for x in m)
 cov = re.findall(r"cov: (\d+)", txt)
-ev["coverage"]["fuzz"] = {"engine": "libFuzzer (cargo-fuzz, ASan) driving the same proptest strategy through the pass-through RNG", "seconds": int(secs), "seed": int(seed), "executions": execs, "max_cov_edges": max([int(c) for c in cov] or [0]), "failures": len(re.findall("VERIF-FUZZ-FAILURE", txt))}
+ev["coverage"]["fuzz"] = {"engine": "libFuzzer (cargo-fuzz, ASan); bytes decoded by hand-written decoders (harness/src/fuzzdec.rs) into the same case types, judged by the same check functions", "seconds": int(secs), "seed": int(seed), "executions": execs, "max_cov_edges": max([int(c) for c in cov] or [0]), "failures": len(re.findall("VERIF-FUZZ-FAILURE", txt))}
 json.dump(ev, open(path, "w"), indent=1)
 PY
 fail=$(grep -m1 "VERIF-FUZZ-FAILURE" "$log")
